@@ -36,6 +36,9 @@ def gen_plan(rng):
     return chanload.gen_plan(rng)
 
 
+valid_plan = chanload.valid_plan
+
+
 def run_plan(plan, sched_seed=None, sched_replay=None):
     def between(world, run):
         if world.sim.loop.capped:
